@@ -206,3 +206,97 @@ func lostLoopErrors(fn *ssa.Function) (out []lostErr, nLoopErrs int) {
 	}
 	return
 }
+
+// upperBound derives a finite upper bound of a non-negative integer value from constants, string-table lookups and
+// arithmetic; ok=false when no bound follows from the code (then nothing is claimed).
+func upperBound(v ssa.Value, depth int) (int64, bool) {
+	if depth > 8 {
+		return 0, false
+	}
+	switch x := v.(type) {
+	case *ssa.Const:
+		return constInt(x)
+	case *ssa.Convert:
+		return upperBound(x.X, depth+1)
+	case *ssa.ChangeType:
+		return upperBound(x.X, depth+1)
+	case *ssa.BinOp:
+		a, ok1 := upperBound(x.X, depth+1)
+		b, ok2 := upperBound(x.Y, depth+1)
+		switch x.Op {
+		case token.ADD:
+			if ok1 && ok2 {
+				return a + b, true
+			}
+		case token.MUL:
+			if ok1 && ok2 && a >= 0 && b >= 0 {
+				return a * b, true
+			}
+		case token.REM:
+			if ok2 && b > 0 {
+				return b - 1, true
+			}
+		case token.AND:
+			if ok2 && b >= 0 {
+				return b, true
+			}
+			if ok1 && a >= 0 {
+				return a, true
+			}
+		}
+	case *ssa.Phi:
+		var m int64
+		for _, e := range x.Edges {
+			if e == v {
+				return 0, false
+			}
+			b, ok := upperBound(e, depth+1)
+			if !ok {
+				return 0, false
+			}
+			if b > m {
+				m = b
+			}
+		}
+		return m, true
+	case *ssa.Call:
+		co := calleeObj(&x.Call)
+		if objIs(co, "strings", "", "IndexByte") || objIs(co, "strings", "", "Index") || objIs(co, "strings", "", "IndexRune") || objIs(co, "bytes", "", "IndexByte") {
+			if s, ok := constString(x.Call.Args[0]); ok {
+				return int64(len(s)) - 1, true
+			}
+		}
+		if b, ok := x.Call.Value.(*ssa.Builtin); ok && b.Name() == "len" {
+			if s, ok := constString(x.Call.Args[0]); ok {
+				return int64(len(s)), true
+			}
+		}
+	}
+	return 0, false
+}
+
+// shiftOverflows lists left shifts whose amount provably reaches the width of the shifted integer type for an
+// attainable input (the bound comes from a literal table's length): the result is then 0, not a power of two.
+type shiftOverflow struct {
+	Instr *ssa.BinOp
+	Max   int64
+	Width int64
+}
+
+func shiftOverflows(fn *ssa.Function, sizes types.Sizes) (out []shiftOverflow, nShifts int) {
+	eachInstr(fn, func(_ *ssa.BasicBlock, in ssa.Instruction) {
+		bo, ok := in.(*ssa.BinOp)
+		if !ok || bo.Op != token.SHL {
+			return
+		}
+		if _, isConst := bo.Y.(*ssa.Const); isConst {
+			return
+		}
+		nShifts++
+		w := sizes.Sizeof(bo.Type()) * 8
+		if m, ok := upperBound(bo.Y, 0); ok && m >= w {
+			out = append(out, shiftOverflow{bo, m, w})
+		}
+	})
+	return
+}
